@@ -65,13 +65,21 @@ func checkC18(p *Prog, r *Report) {
 			rSan.Bad(c+":element-store", posOf(st), "an element of the rows is assigned %s", describeValue(st.Val))
 		}
 	})
+	/* Or the rows executed are a copy made row by row: out = append(out,
+	escape(row)) for every row of another slice. */
+	var mapped *mapLoop
+	if nil == escStore {
+		if mapped = mappedCopy(data); nil != mapped {
+			escCall = mapped.Call
+		}
+	}
 	tfuncs := templateFuncs(p, sffPkg, "funcListTemplate")
 	var tnames []string
 	for n := range tfuncs {
 		tnames = append(tnames, n)
 	}
 	quoteFn := "" /* template function which single-quotes a whole row */
-	if nil == escStore {
+	if nil == escStore && nil == mapped {
 		if text, _ := templateConst(p, sffPkg, "funcListTemplate"); "" != text {
 			if toks, err := flattenTemplate("funcList", text, tnames...); nil == err {
 				for _, t := range toks {
@@ -85,38 +93,55 @@ func checkC18(p *Prog, r *Report) {
 		}
 	}
 	switch {
+	case nil != mapped:
+		escArg, okCall, why := quoteEscape(p, escCall)
+		switch {
+		case !okCall:
+			rSan.Bad(c+":escape", posOf(escCall), "%s", why)
+		case escArg != mapped.Elem:
+			rSan.Bad(c+":escape", posOf(escCall), "what is appended to the executed rows is not the escape of the whole source row")
+		default:
+			rSan.OK(c+":escape", posOf(escCall), "rows = append(rows, escape(row)) with ' → '\\''")
+		}
+		if mapped.Whole {
+			rSan.OK(c+":whole-slice", posOf(mapped.Append), "the copying loop ranges over every source row and starts from an empty slice")
+		} else {
+			rSan.Bad(c+":whole-slice", posOf(mapped.Append), "the escaped copy does not take every source row (or does not start empty): some rows reach the template unescaped")
+		}
+		later := false
+		for _, ref := range *mapped.Out.Referrers() {
+			in := ref
+			if ref == ssa.Instruction(mapped.Append) || ref == ssa.Instruction(exec) {
+				continue
+			}
+			switch y := ref.(type) {
+			case *ssa.MakeInterface, *ssa.DebugRef, *ssa.Phi:
+				continue
+			case *ssa.Call:
+				if b, ok := y.Common().Value.(*ssa.Builtin); ok && ("len" == b.Name() || "cap" == b.Name()) {
+					continue
+				}
+			}
+			later = true
+			rSan.Bad(c+":nothing-after", posOf(in), "the escaped rows are used by %T before Execute", in)
+		}
+		if !later {
+			rSan.OK(c+":nothing-after", posOf(exec), "nothing touches the escaped copy between the loop and Execute")
+		}
+		if !mapped.Append.Block().Dominates(exec.Block()) && !mapped.Out.Block().Dominates(exec.Block()) {
+			rSan.Bad(c+":before-execute", posOf(exec), "the template can be executed on a path which skips the escape loop")
+		}
+		/* What follows is about where the rows come from. */
+		data = mapped.Src
 	case nil == escStore && "" != quoteFn:
 		rSan.OK(c+":escape", posOf(exec), "every row is printed through the template function %s, which returns the row as one single-quoted shell word (' → '\\'' inside quotes)", quoteFn)
 	case nil == escStore:
 		rSan.Bad(c+":escape", posOf(exec), "the rows executed against the template are never escaped in place: a single quote in a TABDOC line ends the quoting and the rest runs as shell code")
 	default:
-		name := calleeName(escCall.Common())
-		okCall := false
-		var why string
-		switch name {
-		case "strings.ReplaceAll":
-			a, _ := constString(escCall.Common().Args[1])
-			b, _ := constString(escCall.Common().Args[2])
-			if "'" == a && `'\''` == b {
-				okCall = true
-			} else {
-				why = fmt.Sprintf("replaces %q by %q; inside single quotes only ' → '\\'' is correct", a, b)
-			}
-		case "strings.Replace":
-			a, _ := constString(escCall.Common().Args[1])
-			b, _ := constString(escCall.Common().Args[2])
-			n, _ := constInt(escCall.Common().Args[3])
-			if "'" == a && `'\''` == b && n < 0 {
-				okCall = true
-			} else {
-				why = fmt.Sprintf("strings.Replace(%q, %q, %d) does not escape every quote", a, b, n)
-			}
-		default:
-			why = "escapes with " + name
-		}
+		escArg, okCall, why := quoteEscape(p, escCall)
 		/* Operand: the same element. */
 		sameElem := false
-		if u, ok := escCall.Common().Args[0].(*ssa.UnOp); ok && token.MUL == u.Op {
+		if u, ok := escArg.(*ssa.UnOp); ok && token.MUL == u.Op {
 			if ia, ok := u.X.(*ssa.IndexAddr); ok {
 				sia := escStore.Addr.(*ssa.IndexAddr)
 				if ia.X == sia.X && ia.Index == sia.Index {
@@ -232,6 +257,12 @@ func checkC18(p *Prog, r *Report) {
 	}
 
 	/* 3. Rows. */
+	var escAt ssa.Instruction
+	if nil != escStore {
+		escAt = escStore
+	} else if nil != mapped {
+		escAt = mapped.Append
+	}
 	var dedupe *dedupeLoop
 	rowsV := data
 	if dl := adjacentDedupe(data); nil != dl {
@@ -295,9 +326,9 @@ func checkC18(p *Prog, r *Report) {
 		}
 	})
 	switch {
-	case nil != srt && nil != cmp && instrDominates(srt, cmp) && (nil == escStore || instrDominatesLoop2(cmp, escStore)):
+	case nil != srt && nil != cmp && instrDominates(srt, cmp) && (nil == escAt || instrDominatesLoop2(cmp, escAt)):
 		rRows.OK(c+":sorted-distinct", posOf(cmp), "sorted, then slices.Compact, before escaping")
-	case nil != srt && nil != dedupe && srt.Common().Args[0] == dedupe.Src && instrDominates(srt, dedupe.Append) && (nil == escStore || !canReach(locOf(escStore), dedupe.Append)):
+	case nil != srt && nil != dedupe && srt.Common().Args[0] == dedupe.Src && instrDominates(srt, dedupe.Append) && (nil == escAt || !canReach(locOf(escAt), dedupe.Append)):
 		rRows.OK(c+":sorted-distinct", posOf(dedupe.Append), "sorted, then a loop keeping each row unless it equals the last one kept")
 	default:
 		rRows.Bad(c+":sorted-distinct", posOf(exec), "rows are not sorted and de-duplicated before being escaped")
@@ -341,7 +372,14 @@ func checkC18(p *Prog, r *Report) {
 			rScan.Bad(c+":scanner", posOf(cc), "the payload is read with a bufio.Scanner: a line longer than its buffer ends the scan silently and every TABDOC line after it is dropped")
 		}
 	})
-	if nil == scan {
+	if cl := cutLineLoop(gf, gf.Params[0]); nil == scan && nil != cl {
+		/* line, rest, more := strings.Cut(payload, "\n"), again on rest for
+		as long as there was a newline. */
+		if "" != cl.Problem {
+			rScan.Bad(c+":scan-whole", posOf(cl.First), "%s", cl.Problem)
+		}
+		rScan.OK(c+":scan", posOf(cl.First), "takes the payload apart line by line with strings.Cut until no newline is left")
+	} else if nil == scan {
 		rScan.Bad(c+":scan", gf.Pos(), "the payload is not examined line by line with strings.Split(payload, \"\\n\")")
 	} else {
 		var el *ssa.UnOp
@@ -773,4 +811,229 @@ func accumulates(v ssa.Value, acc *ssa.Phi) bool {
 		return false
 	}
 	return walk(v)
+}
+
+// quoteEscape: call escapes its operand for use inside shell single quotes
+// (' → '\\'' and nothing else): strings.ReplaceAll, strings.Replace with n <
+// 0, or a strings.Replacer made of that one pair.  Returns the operand.
+func quoteEscape(p *Prog, call *ssa.Call) (arg ssa.Value, ok bool, why string) {
+	name := calleeName(call.Common())
+	switch name {
+	case "strings.ReplaceAll":
+		a, _ := constString(call.Common().Args[1])
+		b, _ := constString(call.Common().Args[2])
+		if "'" == a && `'\''` == b {
+			return call.Common().Args[0], true, ""
+		}
+		return nil, false, fmt.Sprintf("replaces %q by %q; inside single quotes only ' → '\\'' is correct", a, b)
+	case "strings.Replace":
+		a, _ := constString(call.Common().Args[1])
+		b, _ := constString(call.Common().Args[2])
+		n, _ := constInt(call.Common().Args[3])
+		if "'" == a && `'\''` == b && n < 0 {
+			return call.Common().Args[0], true, ""
+		}
+		return nil, false, fmt.Sprintf("strings.Replace(%q, %q, %d) does not escape every quote", a, b, n)
+	case "(*strings.Replacer).Replace":
+		pairs, known := replacerPairs(p, call.Common().Args[0])
+		if !known {
+			return nil, false, "escapes with a strings.Replacer whose pairs are not constant"
+		}
+		if 2 == len(pairs) && "'" == pairs[0] && `'\''` == pairs[1] {
+			return call.Common().Args[1], true, ""
+		}
+		return nil, false, fmt.Sprintf("escapes with strings.NewReplacer(%q); inside single quotes only ' → '\\'' is correct", pairs)
+	}
+	return nil, false, "escapes with " + name
+}
+
+// mapLoop is "for _, row := range Src { Out = append(Out, f(row)) }".
+type mapLoop struct {
+	Out    *ssa.Phi  /* the slice being built, as seen after the loop */
+	Src    ssa.Value /* the slice ranged over */
+	Elem   ssa.Value /* the row of Src at the loop's index */
+	Call   *ssa.Call /* f(row) */
+	Append *ssa.Call
+	Whole  bool /* ranges over all of Src, Out starts empty, nothing else is appended */
+}
+
+// mappedCopy recognises data as the result of such a loop.
+func mappedCopy(data ssa.Value) *mapLoop {
+	ph, ok := data.(*ssa.Phi)
+	if !ok {
+		return nil
+	}
+	ml := &mapLoop{Out: ph, Whole: true}
+	nApp := 0
+	for _, e := range ph.Edges {
+		e = stripConv(e, false)
+		switch x := e.(type) {
+		case *ssa.Const:
+			if !x.IsNil() {
+				return nil
+			}
+		case *ssa.MakeSlice:
+			if k, isC := constInt(x.Len); !isC || 0 != k {
+				ml.Whole = false
+			}
+		case *ssa.Call:
+			bi, isB := x.Common().Value.(*ssa.Builtin)
+			if !isB || "append" != bi.Name() || x.Common().Args[0] != ssa.Value(ph) {
+				return nil
+			}
+			nApp++
+			ml.Append = x
+			els := variadicElems(x.Common())
+			if 1 != len(els) {
+				return nil
+			}
+			c, isCall := els[0].(*ssa.Call)
+			if !isCall {
+				return nil
+			}
+			ml.Call = c
+		default:
+			return nil
+		}
+	}
+	if 1 != nApp || nil == ml.Call {
+		return nil
+	}
+	/* The row: an operand of the call which is an element of a slice at a
+	whole-range index. */
+	for _, a := range ml.Call.Common().Args {
+		u, ok := a.(*ssa.UnOp)
+		if !ok || token.MUL != u.Op {
+			continue
+		}
+		ia, ok := u.X.(*ssa.IndexAddr)
+		if !ok {
+			continue
+		}
+		ml.Src, ml.Elem = ia.X, a
+		if !wholeRange(ia.Index, ia.X) {
+			ml.Whole = false
+		}
+	}
+	if nil == ml.Src {
+		return nil
+	}
+	return ml
+}
+
+// cutLoop is the idiom
+//
+//	line, rest, more := strings.Cut(s, sep)
+//	for { use(line); if !more { break }; line, rest, more = strings.Cut(rest, sep) }
+//
+// which visits every sep-separated piece of s, the last one included.
+type cutLoop struct {
+	First, Next *ssa.Call
+	Line        *ssa.Phi
+	Problem     string /* set when the loop can be left before the last piece */
+}
+
+func cutLineLoop(fn *ssa.Function, payload ssa.Value) *cutLoop {
+	var out *cutLoop
+	eachInstr(fn, func(i ssa.Instruction) {
+		first, ok := i.(*ssa.Call)
+		if !ok || nil != out {
+			return
+		}
+		if n := calleeName(first.Common()); "strings.Cut" != n && "bytes.Cut" != n {
+			return
+		}
+		if stripConv(first.Common().Args[0], true) != payload {
+			return
+		}
+		if sep, isC := constString(stripConv(first.Common().Args[1], true)); !isC || "\n" != sep {
+			return
+		}
+		ex := func(c *ssa.Call, k int) ssa.Value {
+			if e := extractOf(c, k); nil != e {
+				return e
+			}
+			return nil
+		}
+		/* The phis merging First's results with Next's. */
+		phiOf := func(v ssa.Value) *ssa.Phi {
+			if nil == v || nil == v.Referrers() {
+				return nil
+			}
+			for _, ref := range *v.Referrers() {
+				if ph, isPhi := ref.(*ssa.Phi); isPhi {
+					return ph
+				}
+			}
+			return nil
+		}
+		line, rest, more := phiOf(ex(first, 0)), phiOf(ex(first, 1)), phiOf(ex(first, 2))
+		if nil == line || nil == rest || nil == more || line.Block() != rest.Block() || line.Block() != more.Block() {
+			return
+		}
+		h := line.Block()
+		var next *ssa.Call
+		for _, e := range rest.Edges {
+			if x, isEx := e.(*ssa.Extract); isEx && 1 == x.Index {
+				if c, isCall := x.Tuple.(*ssa.Call); isCall && c != first && calleeName(c.Common()) == calleeName(first.Common()) && c.Common().Args[0] == ssa.Value(rest) && sameConstString(c.Common().Args[1], first.Common().Args[1]) {
+					next = c
+				}
+			}
+		}
+		if nil == next {
+			return
+		}
+		for _, ph := range []*ssa.Phi{line, rest, more} {
+			k := map[*ssa.Phi]int{line: 0, rest: 1, more: 2}[ph]
+			for _, e := range ph.Edges {
+				if e != ex(first, k) && e != ex(next, k) {
+					return
+				}
+			}
+		}
+		cl := &cutLoop{First: first, Next: next, Line: line}
+		/* Every way out of the loop is the "no newline was found" edge of
+		a test of more. */
+		inLoop := map[*ssa.BasicBlock]bool{}
+		for _, b := range fn.Blocks {
+			if h.Dominates(b) && (b == h || nil != (reachQ{From: Loc{b, -1, nil}, Target: func(j ssa.Instruction) bool { return j.Block() == h }}).run()) {
+				inLoop[b] = true
+			}
+		}
+		for b := range inLoop {
+			for k, sc := range b.Succs {
+				if inLoop[sc] {
+					continue
+				}
+				ifi := blockIf(b)
+				okExit := false
+				if nil != ifi {
+					dc := decodeCond(ifi.Cond)
+					if nil == dc.Y && dc.X == ssa.Value(more) {
+						falseEdge := 1
+						if !dc.Eq {
+							falseEdge = 0
+						}
+						okExit = k == falseEdge
+					}
+				}
+				if !okExit {
+					cl.Problem = "the loop taking the payload apart with strings.Cut can be left while pieces remain"
+				}
+			}
+			for _, in := range b.Instrs {
+				if _, isRet := in.(*ssa.Return); isRet {
+					cl.Problem = "the loop taking the payload apart with strings.Cut can return while pieces remain"
+				}
+			}
+		}
+		out = cl
+	})
+	return out
+}
+
+func sameConstString(a, b ssa.Value) bool {
+	x, ok1 := constString(stripConv(a, true))
+	y, ok2 := constString(stripConv(b, true))
+	return ok1 && ok2 && x == y
 }
